@@ -150,7 +150,7 @@ def cut_loop(eng, node, st, k, ctx, n, lc, guard_fn, pre_body, post_body, index_
     stable = [n_ for n_ in lc.get("stable", []) if n_ in st.env]
     stable_vals = {n_: st.env[n_] for n_ in stable}
     havoc_locals(eng, st, [n_ for n_ in body_names if n_ not in stable])
-    if lc.get("forget_callee_facts", True):
+    if lc.get("forget_callee_facts", False):
         # quantified facts assumed from callees BEFORE the loop relate states the loop has just replaced; dropping hypotheses is sound and
         # keeps the body's obligations small (the invariant has to carry what the body needs)
         from .engine import TAGS
